@@ -45,18 +45,29 @@ def r1(ctx):
     repo = ctx.repo
     cls = repo.cls(ARB)
     # handlers
-    f = ctx.fn(repo.func(ARB + ".handle_term"))
-    raises = [n for n in f.cfg.stmts(ast.Raise) if n.raised == "StopIteration"]
-    stops = calls_to(repo, f, ARB + ".stop")
-    ctx.check("C04.R1", bool(raises) and not stops and f.cfg.exit not in f.cfg.reachable([f.cfg.entry]), key(f, "term-graceful"), site(f),
-              "handle_term does not simply raise StopIteration (graceful halt through run())", "TERM -> StopIteration -> halt()")
-    for nm in ("handle_int", "handle_quit"):
+    # evaluated: every outcome of the handler is `raise StopIteration`; TERM never calls stop() itself (halt() does, gracefully),
+    # INT / QUIT call stop(False) first
+    for nm, quick in (("handle_term", False), ("handle_int", True), ("handle_quit", True)):
         f = ctx.fn(repo.func(ARB + "." + nm))
         g = f.cfg
-        raises = [n for n in g.stmts(ast.Raise) if n.raised == "StopIteration"]
-        st = [c for c in calls_to(repo, f, ARB + ".stop") if c.args and const(c.args[0], NO) is False or any(k.arg == "graceful" and const(k.value, NO) is False for k in c.keywords)]
-        okk = bool(raises) and bool(st) and all(any(g.dominates(a, r, follow_exc=False) for s in st for a in nodes_with(f, s)) for r in raises) and g.exit not in g.reachable([g.entry])
-        ctx.check("C04.R1", okk, key(f, "quick-stop"), site(f), "%s does not stop(False) and then raise StopIteration" % nm, "stop(False) then StopIteration")
+        stop_calls = calls_to(repo, f, ARB + ".stop")
+
+        def probe_of(c):
+            def probe(ex, env):
+                a0 = c.args[0] if c.args else next((k.value for k in c.keywords if k.arg == "graceful"), None)
+                return "graceful" if a0 is None else ex.ev(a0, env)
+            return probe
+        probes = {nn.id: ("stop@%d" % i, probe_of(c)) for i, c in enumerate(stop_calls) for nn in nodes_with(f, c)}
+        outs = Explorer(f).run(g.entry, {}, probes=probes)
+        got = set()
+        for o in outs:
+            stops_ = tuple(sorted(str(v) for k, v in o.events if isinstance(k, str) and k.startswith("stop@")))
+            got.add((o.kind, str(o.detail) if o.kind == "raise" else None, stops_))
+        want = {("raise", "StopIteration", ("False",) if quick else ())}
+        if quick:
+            ctx.check("C04.R1", got == want, key(f, "quick-stop"), site(f), "%s does not stop(False) and then raise StopIteration (outcomes: %s)" % (nm, sorted(got)), "stop(False) then StopIteration")
+        else:
+            ctx.check("C04.R1", got == want, key(f, "term-graceful"), site(f), "handle_term does not simply raise StopIteration (graceful halt through run()); outcomes: %s" % sorted(got), "TERM -> StopIteration -> halt()")
     f_run = ctx.fn(repo.func(ARB + ".run"))
     hs = [h for h in walk_own(f_run.node) if isinstance(h, ast.ExceptHandler) and h.type is not None and "StopIteration" in norm(h.type)]
     okk = any(isinstance(c, ast.Call) and repo.call_target(f_run.module, f_run, c) == ARB + ".halt" and not c.args and not c.keywords for h in hs for c in ast.walk(h))
